@@ -442,6 +442,32 @@ def r7(ctx):
     ctx.floor("timestamp deserialisers", n, 4)
 
 
+def r8(ctx):
+    """the market of a dated contract names the CALENDAR date of its expiry (the connectors' own doc comments: "230526" = 26th of May
+    2023; "20230526"): the strftime pattern of every expiry formatter is made of calendar fields only.  An ISO-8601 week-based
+    year (%G / %g) next to %m%d names another year for expiries in the days around New Year - the subscription id then belongs to
+    a different contract: the subscribed contract's messages become unidentifiable and the other contract's are attributed to it."""
+    import re
+    n = 0
+    for d, r in sorted(ctx.facts.bodies.items()):
+        if r.get("test") or not d.startswith("barter_data::exchange::"):
+            continue
+        for blk in r["blocks"]:
+            t = blk["term"]
+            if not (t and t["t"] == "call" and "def" in t["f"] and t["f"]["def"].endswith("::format") and "chrono" in t["f"]["def"]):
+                continue
+            b = ctx.ibody(d)
+            tm = b.call_term(t, blk["i"])
+            pat = tm[2][-1]
+            lit = pat[1].strip('"') if pat[0] == "const" else None
+            n += 1
+            ok = lit is not None and re.fullmatch(r"(?:%[YymdHMS]|[-_/:T ])+", lit) is not None and \
+                (("%m" not in lit and "%d" not in lit) or "%Y" in lit or "%y" in lit)
+            ctx.check(mir.short(d), ok, "the date pattern of a contract market uses calendar fields only (%Y/%y %m %d): no ISO week-based year, "
+                      "week number or ordinal day", sites=[t["sp"]], got=render(tm)[:160], key="calendar-date")
+    ctx.floor("expiry / date formatters of the connectors", n, 2)
+
+
 RULES = [
     ("R1", "StatelessTransformer::transform outcome table; keyed id lookup", r1),
     ("R2", "mapper pairs each subscription's id with that subscription's instrument key", r2),
@@ -450,4 +476,5 @@ RULES = [
     ("R5", "dynamic stream builder arms: connector ID, kind and channel per arm", r5),
     ("R6", "message id accessors hand out the deserialised subscription id verbatim", r6),
     ("R7", "shared timestamp deserialisers: UNIX_EPOCH + the stated value, stated unit, full precision", r7),
+    ("R8", "contract markets name the calendar date of the expiry (no ISO week-based year in the date pattern)", r8),
 ]
